@@ -22,7 +22,8 @@ class MocksEmitter:
     """Generates mock helper classes for testing."""
 
     def __init__(self, context: RenderContext) -> None:
-        self.endpoint_visitor = EndpointVisitor()
+        # Same schema table as EndpointsEmitter, so that mock signatures resolve to the same types as the clients'
+        self.endpoint_visitor = EndpointVisitor(context.parsed_schemas or {})
         self.client_visitor = ClientVisitor()
         self.context = context
 
